@@ -22,21 +22,22 @@ struct MseInitiator {
   MseEnd e;
   WirePeer plain;          // never connected: only its rx buffer + parsers are used (decrypted stream)
   bool established = false;
-  unsigned selected = 0;
+  unsigned selected = 0;   // crypto_select of the library: 1 plaintext stream after the MSE handshake, 2 RC4
 
   MseInitiator(WirePeer& wire, uint64_t seed) : w(wire), e(seed, true) {}
 
   static std::string be16(unsigned v) { char b[2] = {char(v >> 8), char(v)}; return std::string(b, 2); }
 
+  // provide: crypto_provide bit field offered to the library (1 plaintext, 2 RC4, 3 both)
   template <class S>
-  bool negotiate(S& session, const std::string& info_hash) {
+  bool negotiate(S& session, const std::string& info_hash, unsigned provide = 2) {
     w.send_bytes(e.pubkey());
     pump(session, {&w});
     if (w.rx.size() < 96) return false;
     e.set_remote_key(w.rx.substr(0, 96));
     e.start_ciphers(info_hash);
     w.send_bytes(e.req1() + e.req2xor3(info_hash) +
-                 e.enc(std::string(8, '\0') + WirePeer::be32(2) + be16(0) + be16(0)));
+                 e.enc(std::string(8, '\0') + WirePeer::be32(provide) + be16(0) + be16(0)));
     pump(session, {&w});
     std::string pat = e.vc_pattern_in();
     size_t p = w.rx.find(pat, 96);
@@ -45,7 +46,7 @@ struct MseInitiator {
     if (neg.compare(0, 8, std::string(8, '\0')) != 0) return false;
     selected = (unsigned char)neg[11];
     unsigned pad = ((unsigned char)neg[12] << 8) | (unsigned char)neg[13];
-    if (selected != 2 || w.rx.size() < p + 14 + pad) return false;
+    if ((selected != 2 && selected != 1) || (selected & provide) == 0 || w.rx.size() < p + 14 + pad) return false;
     e.dec(w.rx.substr(p + 14, pad));
     w.rx.erase(0, p + 14 + pad);
     established = true;
@@ -53,15 +54,72 @@ struct MseInitiator {
     return true;
   }
   // encrypt exactly once, then hand to the socket (WirePeer queues what the kernel does not take)
-  void send(const std::string& plaintext) { w.send_bytes(e.enc(plaintext)); }
-  std::string seal(const std::string& plaintext) { return e.enc(plaintext); }
+  bool rc4() const { return selected == 2; }
+  void send(const std::string& plaintext) { w.send_bytes(seal(plaintext)); }
+  std::string seal(const std::string& plaintext) { return rc4() ? e.enc(plaintext) : plaintext; }
   void absorb() {
     if (!established || w.rx.empty()) return;
-    plain.rx += e.dec(w.rx);
+    plain.rx += rc4() ? e.dec(w.rx) : w.rx;
     plain.rx_total += w.rx.size();
     w.rx.clear();
   }
   uint64_t keystream_in_used() const { return e.dec_index; }
+};
+
+// Minimal MSE *responder* (role B: the library's OUTGOING peer; the library must be configured to
+// prefer/require encrypted handshakes, Session::Config::enc_handshake_mode = 2). No PadB/PadD.
+//   WirePeer P; uint16_t port = P.listen_on(ip); S.connect_out(T, ip, port);
+//   MseResponder M(P, seed); M.negotiate(S, T->info_hash, /*crypto_select=*/2);
+//   HandshakeIn h; M.plain.take_handshake(h);      // the library's BT handshake arrived as IA
+//   M.send(WirePeer::handshake(...) + WirePeer::keepalive()); ...
+struct MseResponder {
+  WirePeer& w;
+  MseEnd e;
+  WirePeer plain;
+  bool established = false;
+  unsigned provide = 0, selected = 0;
+
+  MseResponder(WirePeer& wire, uint64_t seed) : w(wire), e(seed, false) {}
+
+  template <class S>
+  bool negotiate(S& session, const std::string& info_hash, unsigned select = 2) {
+    pump(session, {&w});                       // accept; the library sends Ya + PadA
+    if (w.fd == -1 || w.rx.size() < 96) return false;
+    e.set_remote_key(w.rx.substr(0, 96));
+    w.send_bytes(e.pubkey());
+    pump(session, {&w});
+    size_t p = w.rx.find(e.req1(), 96);
+    if (p == std::string::npos || w.rx.size() < p + 40 + 14) return false;
+    if (w.rx.compare(p + 20, 20, e.req2xor3(info_hash)) != 0) return false;
+    e.start_ciphers(info_hash);
+    std::string neg = e.dec(w.rx.substr(p + 40, 14));
+    if (neg.compare(0, 8, std::string(8, '\0')) != 0) return false;
+    provide = (unsigned char)neg[11];
+    unsigned padc = ((unsigned char)neg[12] << 8) | (unsigned char)neg[13];
+    size_t q = p + 40 + 14;
+    if (w.rx.size() < q + padc + 2) return false;
+    e.dec(w.rx.substr(q, padc));
+    std::string l = e.dec(w.rx.substr(q + padc, 2));
+    unsigned ia = ((unsigned char)l[0] << 8) | (unsigned char)l[1];
+    if (w.rx.size() < q + padc + 2 + ia) return false;
+    plain.rx += e.dec(w.rx.substr(q + padc + 2, ia));   // initial payload: the library's BT handshake
+    w.rx.erase(0, q + padc + 2 + ia);
+    if ((provide & select) == 0) return false;
+    selected = select;
+    w.send_bytes(e.enc(std::string(8, '\0') + WirePeer::be32(select) + MseInitiator::be16(0)));
+    established = true;
+    absorb();
+    return true;
+  }
+  bool rc4() const { return selected == 2; }
+  void send(const std::string& plaintext) { w.send_bytes(seal(plaintext)); }
+  std::string seal(const std::string& plaintext) { return rc4() ? e.enc(plaintext) : plaintext; }
+  void absorb() {
+    if (!established || w.rx.empty()) return;
+    plain.rx += rc4() ? e.dec(w.rx) : w.rx;
+    plain.rx_total += w.rx.size();
+    w.rx.clear();
+  }
 };
 
 }  // namespace ltv
